@@ -306,7 +306,9 @@ def cases(tier, seed):
                 for rot in (0, 2) if q else range(4):
                     out.append({"name": f"data:{g}:{dname}:{op}:rot{rot}", "scenario": "scenario_data", "cfg": {"grid": g, "dec": list(dec), "op": op, "rot": rot}})
             if any(spec.get("periodic", ())) or spec.get("periodic_z"):
-                out.append({"name": f"data:{g}:{dname}:laplace:anti-periodic", "scenario": "scenario_data", "cfg": {"grid": g, "dec": list(dec), "op": "laplace", "rot": 1, "anti": True}})
+                per = list(spec.get("periodic", ())) or [False, bool(spec.get("periodic_z"))]
+                split = any(p_ and k > 1 for p_, k in zip(per, dec))
+                out.append({"name": f"data:{g}:{dname}:laplace:anti-periodic:{'seam-split' if split else 'seam-unsplit'}", "scenario": "scenario_data", "cfg": {"grid": g, "dec": list(dec), "op": "laplace", "rot": 1, "anti": True}})
     for c in out:
         if ":cyl:" in c["name"]:
             c["allowed"] = ["NotImplementedError"]
@@ -322,7 +324,7 @@ CANARIES = [
     },
     {
         "name": "anti-periodic-flip-lost-on-subgrids",
-        "case": "data:cart2:periodic-y:2x1:laplace:anti-periodic",
+        "case": "data:cart2:periodic-y:2x1:laplace:anti-periodic:seam-unsplit",
         "patch": [("pde.grids.boundaries.local:_PeriodicBC.to_subgrid", "flip_sign=self.flip_sign", "rank=self.rank")],
         "expect": "combined",
     },
